@@ -145,3 +145,60 @@ def setdt(job):
         return 'ok ' + vlib.hexs(f.to_er7())
     except Exception as e:  # noqa
         return 'exc ' + vlib.exc_name(e)
+
+
+def _mk(kind, name, v):
+    from hl7apy.core import Segment, Field
+    return (Segment if kind == 'S' else Field)(name, version=v, validation_level=vlib.level(False))
+
+
+def addr(job):
+    """(version, kind 'S'|'F', parent name, spelling, canonical setter spelling, value):
+    write through `spelling` on a fresh parent; read and delete through `spelling` on a parent populated through the canonical name"""
+    v, kind, parent, x, canon, val = job
+    try:
+        a = _mk(kind, parent, v)
+        setattr(a, x, val)
+        names = ','.join(c.name or '?' for c in a.children)
+        er7 = a.to_er7()
+    except Exception as e:  # noqa
+        return 'exc ' + vlib.exc_name(e)
+    try:
+        b = _mk(kind, parent, v)
+        setattr(b, canon, val)
+        want = b.to_er7()
+        p = getattr(b, x)
+        rd = 'R1' if (p.to_er7() == val and er7 == want) else 'R0'
+    except Exception as e:  # noqa
+        rd = 'Rexc:' + vlib.exc_name(e)
+    try:
+        delattr(b, x)
+        after = b.to_er7()
+        dl = 'D1' if (after == parent if kind == 'S' else val not in after) else 'D0'
+    except Exception as e:  # noqa
+        dl = 'Dexc:' + vlib.exc_name(e)
+    return 'ok %s %s %s %s' % (names, vlib.hexs(er7), rd, dl)
+
+
+def addr_neg(job):
+    """(version, kind, parent, name): get / set / delete through a name that designates no child"""
+    v, kind, parent, x = job
+    out = []
+    for mode in ('get', 'set', 'del'):
+        a = _mk(kind, parent, v)
+        try:
+            if mode == 'get':
+                r = getattr(a, x)
+                r = 'returned:' + type(r).__name__
+            elif mode == 'set':
+                setattr(a, x, 'X')
+                r = 'created:' + ','.join(c.name or '?' for c in a.children)
+            else:
+                delattr(a, x)
+                r = 'deleted'
+        except Exception as e:  # noqa
+            r = vlib.exc_name(e)
+        if len(a.children) != 0 and not r.startswith('created'):
+            r += '+children'
+        out.append(r)
+    return ' '.join(out)
